@@ -8,6 +8,7 @@ def run():
     th = vlib.TIER == "thorough"
     match_model(acc, ["T50"])
     match_replay(v, acc, ["T50"], 4 if th else 3, 6 if th else 5)               # the fusion-rich threshold: offsets, clamp, filter
+    match_replay(v, acc, ["T80"], 4, 6)                                          # documents no longer than q at either end of the input (run filter, window ends)
     recs, lines = trace_leg(v, acc, "c07", [PID])
     ps = [r for r in lines if r.get("ev") == "pair"]
     acc.nontrivial = len({r["label"] for r in ps}); acc.extra["pairs"] = len(ps)
